@@ -56,18 +56,22 @@ def l2(quick, thorough, qflags, tflags, reach=()):
 L2RUN3 = l2({"stages": 3}, {"stages": 3}, {"preempt": 0}, {"preempt": 0}, reach=["schedule.nil", "schedule.canceled", "dependent-skipped", "end"])
 L2RUN = l2({"stages": 2}, {"stages": 3}, {"preempt": 2}, {"preempt": 1}, reach=["schedule.nil", "schedule.canceled", "run.canceled-in-flight", "run.refused-after-cancel", "run.after-allowed-failure", "dependent-skipped", "end"])
 
+SELFTEST = {"pkg": P, "harness": ["harness/prunner"], "entry": "VerifSelfTest", "quick": {}, "thorough": {}, "reach": ["selftest-done"], "selftest": True, "flags": {"workers": 2}}
+
+COMPOSITE = step("VerifComposite", {}, {}, reach=["verdict.success", "verdict.failure", "fail-fast", "allowed-failure", "cancel-acknowledged", "end"], flags={"preempt": 0})
+
 CHECKS = {
     "C01": {"prefixes": ["C01."], "assumptions": L3_ASSUME, "validate_samples": {"quick": 1, "thorough": 3},
             "runs": [bmc({"K": 4, "N": 4}, {"K": 5, "N": 4}, reach=["spawn.concurrent>1", "end"]), bmcB(reach=["end"])]},
     "C02": {"prefixes": ["C02."], "assumptions": L3_ASSUME + L2_ASSUME, "validate_samples": {"quick": 1, "thorough": 3},
             "runs": [bmc({"K": 4, "N": 4}, {"K": 5, "N": 4}, reach=["end"]), L2RUN, L2RUN3,
                      step("VerifC02Graph", {"tasks": 3}, {"tasks": 3}, reach=["cyclic", "acyclic", "fan-in"]),
-                     step("VerifC02Graph", {"tasks": 4, "dagonly": 1, "permutemode": 1, "concretenames": 1}, {"tasks": 5, "dagonly": 1, "permutemode": 1, "concretenames": 1}, reach=["acyclic", "fan-in"])]},
+                     step("VerifC02Graph", {"tasks": 4, "dagonly": 1, "permutemode": 1, "concretenames": 1}, {"tasks": 4, "dagonly": 1, "permutemode": 1, "concretenames": 1}, reach=["acyclic", "fan-in"]), SELFTEST]},
     "C03": {"prefixes": ["C03."], "assumptions": L3_ASSUME, "validate_samples": {"quick": 1, "thorough": 3},
             "runs": [bmc({"K": 4, "N": 4}, {"K": 5, "N": 4}, reach=["state.waiting", "cancel.waiting"]), bmcB(reach=["state.three-waiting"]),
                      bmc({"K": 4, "N": 3, "reloads": 1, "reservedvar": 0, "taskerr": 0}, {"K": 5, "N": 3, "reloads": 1, "taskerr": 0}, reach=["reload"])]},
     "C04": {"prefixes": ["C04."], "assumptions": L3_ASSUME + L2_ASSUME, "validate_samples": {"quick": 1, "thorough": 3},
-            "runs": [bmc({"K": 4, "N": 4}, {"K": 5, "N": 4}, reach=["cancel.waiting", "cancel.running", "cancel.already-canceled", "cancel.completed"]), L2RUN, L2RUN3]},
+            "runs": [bmc({"K": 4, "N": 4}, {"K": 5, "N": 4}, reach=["cancel.waiting", "cancel.running", "cancel.already-canceled", "cancel.completed"]), L2RUN, L2RUN3, COMPOSITE]},
     "C05": {"prefixes": ["C05."], "assumptions": L3_ASSUME, "validate_samples": {"quick": 1, "thorough": 3},
             "runs": [bmc({"K": 4, "N": 4}, {"K": 5, "N": 4}, reach=["sched.start", "sched.append", "sched.replace", "sched.reject-full", "sched.reject-noqueue"]), bmcB(reach=["sched.replace"])]},
     "C06": {"prefixes": ["C06."], "assumptions": L3_ASSUME, "validate_samples": {"quick": 1, "thorough": 3},
@@ -76,7 +80,7 @@ CHECKS = {
             "runs": [bmc({"K": 4, "N": 4}, {"K": 5, "N": 4}, reach=["sched.delayed", "spawn.delayed-job", "sched.replace"]), bmcB(reach=["spawn.delayed-job", "sched.replace"])]},
     "C15": {"prefixes": ["C15."], "assumptions": L3_ASSUME, "validate_samples": {"quick": 1, "thorough": 3},
             "runs": [bmc({"K": 4, "N": 4}, {"K": 5, "N": 4}, reach=["end"]),
-                     step("VerifC02Graph", {"tasks": 2}, {"tasks": 3}, reach=["cyclic", "acyclic"])]},
+                     step("VerifC02Graph", {"tasks": 2}, {"tasks": 3}, reach=["cyclic", "acyclic"]), SELFTEST]},
     "C16": {"prefixes": ["C16."], "assumptions": L3_ASSUME, "validate_samples": {"quick": 1, "thorough": 3},
             "runs": [bmc({"K": 4, "N": 3, "reloads": 1, "reservedvar": 0, "taskerr": 0}, {"K": 5, "N": 3, "reloads": 1, "taskerr": 0}, reach=["reload"])]},
     "C17": {"prefixes": ["C17."],
@@ -105,14 +109,14 @@ CHECKS = {
                             "sort.Sort is executed from its real SSA (insertion sort for these sizes)"],
             "runs": [step("VerifC12Retention", {"NP": 2, "NQ": 0}, {"NP": 3, "NQ": 0}, reach=["removed", "full-population"], flags={"solver": "cvc5-int"}, replay="harness"),
                      step("VerifC12Retention", {"NP": 1, "NQ": 1}, {"NP": 2, "NQ": 1}, reach=["removed", "full-population"], flags={"solver": "cvc5-int"}, replay="harness"),
-                     step("VerifC12Retention", {"NP": 4, "NQ": 0, "finishedonly": 1}, {"NP": 5, "NQ": 0, "finishedonly": 1}, reach=["removed", "full-population"], flags={"solver": "cvc5-int"}, replay="harness")]},
+                     step("VerifC12Retention", {"NP": 4, "NQ": 0, "finishedonly": 1}, {"NP": 5, "NQ": 0, "finishedonly": 1}, reach=["removed", "full-population"], flags={"solver": "cvc5-int"}, replay="harness"), SELFTEST]},
     "C13": {"prefixes": ["C13."],
             "assumptions": ["lock discipline, not a whole-program race analysis: every access to memory reachable from the PipelineRunner must happen with r.mx held in the right mode",
                             "declared happens-before exceptions: the scheduler goroutine reads its own job's sched/ID; fields set once in NewPipelineRunner (store, outputStore, persistRequests, createTaskRunner) are immutable (writes are reported)",
                             "state: built through the public API (finished, running and waiting jobs, retention configured); one operation per path"],
             "runs": [step("VerifC13Locks", reach=["op-done"])]},
     "C08": {"prefixes": ["C08."], "assumptions": L3_ASSUME + L2_ASSUME, "validate_samples": {"quick": 1, "thorough": 2},
-            "runs": [L2RUN, L2RUN3, bmc({"K": 4, "N": 3, "reservedvar": 0}, {"K": 5, "N": 3, "reservedvar": 0}, reach=["taskerr.failfast"])]},
+            "runs": [L2RUN, L2RUN3, COMPOSITE, bmc({"K": 4, "N": 3, "reservedvar": 0}, {"K": 5, "N": 3, "reservedvar": 0}, reach=["taskerr.failfast"])]},
     "C09": {"prefixes": ["C09."],
             "assumptions": ["file-system contract: CreateTemp/Write/Close/Rename/Open are atomic operations; Rename atomically replaces; a write may be short; every OS call may fail (symbolic fault schedule)",
                             "the JSON codec is a stub: Encode writes an opaque encoding of the snapshot in 1..chunks writes, Decode succeeds iff the file holds exactly one complete encoding",
